@@ -230,6 +230,11 @@ class Variable(FortranObj):
         filter_id = VAR_TYPE_ID
         if var_type in ["class", "type"]:
             filter_id = CLASS_TYPE_ID
+        elif self.parent is not None and self.parent.get_implicit() is not False:
+            # A name in a kind or length selector that has no declaration is an
+            # implicitly typed entity (e.g. a dummy argument) unless IMPLICIT NONE
+            # is in force, whatever other scopes declare under that name
+            return
         for type_def in type_defs:
             if type_def.get_type() == filter_id:
                 known_types[desc_obj_name] = (1, type_def)
